@@ -32,6 +32,23 @@ package main
 // signature recovers to; a Cosmos transaction containing a replayed, out-of-order
 // or altered message fails as a whole without any effect; an in-order batch is
 // accepted and every message of it executes exactly once.
+//
+// Wrapped submissions (kind "wrapped", same runner, explicit script): a signed
+// MsgEthereumTx may be executed only through the Ethereum route, at its signer's
+// current nonce.  The script mixes Ethereum-route transactions with Cosmos
+// transactions that merely CARRY signed Ethereum messages -- already executed
+// ones (the replay), not yet executed ones, future and used nonces -- on every
+// other route: inside authz.MsgExec alone, behind one or several plain MsgSend,
+// nested 1..3 deep, beside other inner messages at any position, signed by the
+// message's own signer or by another account (with or without an authz grant
+// stored for it), as plain messages of an ordinary Cosmos transaction,
+// SIGN_MODE_DIRECT / amino-JSON / EIP-712 (extension and key) signed, or behind
+// the Ethereum extension option without any Cosmos signature.  Every one goes
+// through the real ante handler and the real DeliverTx.  Oracle: no carried
+// message that was executed before, or whose nonce is not its signer's current
+// sequence, is executed (its private recipient's balance does not move), none is
+// executed twice, nobody but the wrapper's own signer pays or loses a sequence
+// number.  The Coq model refuses every wrapped submission.
 
 import (
 	"bytes"
@@ -56,6 +73,7 @@ import (
 	txtypes "github.com/cosmos/cosmos-sdk/types/tx"
 	"github.com/cosmos/cosmos-sdk/types/tx/signing"
 	authtx "github.com/cosmos/cosmos-sdk/x/auth/tx"
+	"github.com/cosmos/cosmos-sdk/x/authz"
 	banktypes "github.com/cosmos/cosmos-sdk/x/bank/types"
 	"github.com/ethereum/go-ethereum/common"
 	ethtypes "github.com/ethereum/go-ethereum/core/types"
@@ -478,6 +496,17 @@ func (w *sgWorld) sgSignCosmos(ctx sdk.Context, route string, a *sgAcct, chain s
 // id whose EIP-155 number goes into the typed-data domain (and the Web3
 // extension), which may differ from the chain id inside the sign doc.
 func (w *sgWorld) sgSignCosmosDomain(ctx sdk.Context, route string, a *sgAcct, chain, domain string, accNum, seq uint64, msgs []sdk.Msg, gasPrice *big.Int) ([]byte, sgSignedDoc, error) {
+	return w.sgSignCosmosGas(ctx, route, a, chain, domain, accNum, seq, msgs, gasPrice, sgCosmosGas)
+}
+
+// sgSignCosmosGas: as sgSignCosmosDomain, with an explicit gas limit (the fee is gas * price); a panic of
+// the signing helpers (a message the sign mode cannot render) is returned as an error.
+func (w *sgWorld) sgSignCosmosGas(ctx sdk.Context, route string, a *sgAcct, chain, domain string, accNum, seq uint64, msgs []sdk.Msg, gasPrice *big.Int, gas uint64) (bz []byte, doc sgSignedDoc, err error) {
+	defer func() {
+		if r := recover(); r != nil {
+			bz, doc, err = nil, sgSignedDoc{}, fmt.Errorf("panic while signing: %v", r)
+		}
+	}()
 	sctx, _ := ctx.CacheContext()
 	sctx = sctx.WithChainID(chain)
 	acc := w.App.AccountKeeper.GetAccount(sctx, a.Acc)
@@ -487,10 +516,9 @@ func (w *sgWorld) sgSignCosmosDomain(ctx sdk.Context, route string, a *sgAcct, c
 	_ = acc.SetSequence(seq)
 	_ = acc.SetAccountNumber(accNum)
 	w.App.AccountKeeper.SetAccount(sctx, acc)
-	fees := sdk.NewCoins(sdk.NewCoin(utils.BaseDenom, sdkmath.NewIntFromBigInt(new(big.Int).Mul(gasPrice, big.NewInt(sgCosmosGas)))))
-	args := utiltx.CosmosTxArgs{TxCfg: w.TxCfg, Priv: a.Priv, ChainID: domain, Gas: sgCosmosGas, Fees: fees, Msgs: msgs}
+	fees := sdk.NewCoins(sdk.NewCoin(utils.BaseDenom, sdkmath.NewIntFromBigInt(new(big.Int).Mul(gasPrice, new(big.Int).SetUint64(gas)))))
+	args := utiltx.CosmosTxArgs{TxCfg: w.TxCfg, Priv: a.Priv, ChainID: domain, Gas: gas, Fees: fees, Msgs: msgs}
 	var tx sdk.Tx
-	var err error
 	switch route {
 	case "cosmos-direct", "cosmos-amino":
 		gp := sdkmath.NewIntFromBigInt(gasPrice)
@@ -510,7 +538,7 @@ func (w *sgWorld) sgSignCosmosDomain(ctx sdk.Context, route string, a *sgAcct, c
 	if err != nil {
 		return nil, sgSignedDoc{}, err
 	}
-	bz, err := w.TxCfg.TxEncoder()(tx)
+	bz, err = w.TxCfg.TxEncoder()(tx)
 	if err != nil {
 		return nil, sgSignedDoc{}, err
 	}
@@ -655,8 +683,10 @@ type sgSub struct {
 	SeqBefore []uint64 `json:"seq_before,omitempty"` // sequences of the interned accounts
 	SeqAfter  []uint64 `json:"seq_after,omitempty"`
 	Deliver   string   `json:"deliver,omitempty"` // DeliverTx code and log
+	Wrapper   string   `json:"wrapper,omitempty"` // wrapped submissions: the shape of the Cosmos transaction
 	coq       string
 	coqs      []string // one descriptor per message (multi-message transactions)
+	wrap      string   // wrapped submissions: the Coq term of the wrapper
 	seqs      []uint64
 }
 
@@ -748,7 +778,11 @@ func (c *sgCase) coq() string {
 			} else if s.Who >= 0 {
 				who = fmt.Sprintf("(Some [%d%%N])", s.Who)
 			}
-			steps = append(steps, fmt.Sprintf("(%s, %s, %s, %s)", coqList(units), coqBool(s.OtherOK), who, coqU64s(seqs)))
+			sub := fmt.Sprintf("Direct %s %s", coqList(units), coqBool(s.OtherOK))
+			if s.wrap != "" {
+				sub = fmt.Sprintf("Wrapped (%s) %s %s", s.wrap, coqList(units), coqBool(s.OtherOK))
+			}
+			steps = append(steps, fmt.Sprintf("(%s, %s, %s)", sub, who, coqU64s(seqs)))
 		}
 		hs = append(hs, fmt.Sprintf("mk_hist (mk_node (mk_cfg %d%%Z %s) %q %s) %d %s\n     %s",
 			sgThisEIP155, coqBool(h.Allow), chainID, coqList(nums), na, coqList(init), coqList(steps)))
@@ -805,15 +839,88 @@ func sgWhy(what string) string {
 
 // ---------------------------------------------------------------- the mutation cases
 type sgInput struct {
-	Kind  string `json:"kind"`  // "mutations" | "blocks" | "multi"
+	Kind  string `json:"kind"`  // "mutations" | "blocks" | "multi" | "wrapped"
 	Route string `json:"route"` // for mutations
 	Seed  uint64 `json:"seed"`
-	// kind "multi": the explicit script (generated from the seed when absent): initial sequences of the
-	// sender accounts, then the Cosmos transactions, each a list of messages; a block boundary before
-	// transaction number Boundary (0 = none)
-	Seq0     []uint64      `json:"seq0,omitempty"`
-	Txs      [][]sgMsgSpec `json:"txs,omitempty"`
-	Boundary int           `json:"boundary,omitempty"`
+	// kinds "multi" and "wrapped": the explicit script (generated from the seed when absent): initial
+	// sequences of the sender accounts, then the Cosmos transactions -- a JSON array = the messages of one
+	// Ethereum-route transaction, a JSON object {"wrap": ...} = a Cosmos transaction that carries signed
+	// Ethereum messages on another route; a block boundary before transaction number Boundary (0 = none)
+	Seq0     []uint64 `json:"seq0,omitempty"`
+	Txs      []sgTx   `json:"txs,omitempty"`
+	Boundary int      `json:"boundary,omitempty"`
+}
+
+// sgTx is one Cosmos transaction of a script.
+type sgTx struct {
+	Msgs []sgMsgSpec // the Ethereum route: ExtensionOptionsEthereumTx, these MsgEthereumTx and nothing else
+	Wrap *sgWrap     // any other route
+}
+
+// sgWrap: a Cosmos transaction signed (routes cosmos-direct, cosmos-amino, eip712-ext, eip712-key) by
+// account Signer at its current sequence, or (route eth-ext) unsigned behind the Ethereum extension
+// option.  Its messages: Before plain MsgSend of the signer, then the inner messages -- as they are
+// (depth 0) or inside Depth nested authz.MsgExec whose grantee is the signer --, then After plain
+// MsgSend.  Grant: before the transaction the harness stores, directly in the authz keeper, a generic
+// authorization for MsgEthereumTx from every carried message's signer to the wrapper's signer (the
+// most permissive state; such a grant cannot be created by a transaction).  A wrapper whose inner
+// messages contain no Ethereum message is an ordinary Cosmos transaction.
+type sgWrap struct {
+	Route  string    `json:"route"`
+	Signer int       `json:"signer"`
+	Before int       `json:"before,omitempty"`
+	After  int       `json:"after,omitempty"`
+	Depth  int       `json:"depth"`
+	Inner  []sgInner `json:"inner"`
+	Grant  bool      `json:"grant,omitempty"`
+}
+
+// sgInner: a signed Ethereum message (named as in sgMsgSpec) or, when Eth is absent, a plain MsgSend.
+type sgInner struct {
+	Eth *sgMsgSpec `json:"eth,omitempty"`
+}
+
+func (t sgTx) MarshalJSON() ([]byte, error) {
+	if t.Wrap != nil {
+		return json.Marshal(struct {
+			Wrap *sgWrap `json:"wrap"`
+		}{t.Wrap})
+	}
+	if t.Msgs == nil {
+		return []byte("[]"), nil
+	}
+	return json.Marshal(t.Msgs)
+}
+
+func (t *sgTx) UnmarshalJSON(b []byte) error {
+	if tb := bytes.TrimSpace(b); len(tb) > 0 && tb[0] == '[' {
+		return json.Unmarshal(b, &t.Msgs)
+	}
+	var o struct {
+		Wrap *sgWrap `json:"wrap"`
+	}
+	if err := json.Unmarshal(b, &o); err != nil {
+		return err
+	}
+	if o.Wrap == nil {
+		return fmt.Errorf("a transaction of a script is an array of messages or {\"wrap\": ...}")
+	}
+	t.Wrap = o.Wrap
+	return nil
+}
+
+// carried: the signed Ethereum messages of the transaction, in order.
+func (t sgTx) carried() []sgMsgSpec {
+	if t.Wrap == nil {
+		return t.Msgs
+	}
+	out := []sgMsgSpec{}
+	for _, im := range t.Wrap.Inner {
+		if im.Eth != nil {
+			out = append(out, *im.Eth)
+		}
+	}
+	return out
 }
 
 // sgMsgSpec names one signed Ethereum transaction of a "multi" case: (from, nonce, alt) always denotes
@@ -1511,7 +1618,7 @@ func sgGenMulti(in *sgInput) {
 			mut := sgMsgSpec{From: i, Nonce: n + 1, Mut: true, Fund: r.Bool()}
 			tx = []sgMsgSpec{M(i, n), mut}
 		}
-		in.Txs = append(in.Txs, tx)
+		in.Txs = append(in.Txs, sgTx{Msgs: tx})
 		// advance the shadow if the transaction is in order
 		tmp := append([]uint64{}, sim...)
 		seen := map[string]bool{}
@@ -1538,10 +1645,142 @@ func sgGenMulti(in *sgInput) {
 		}
 	}
 	if len(done) == 0 { // nothing but refused transactions so far: finish with an in-order batch
-		in.Txs = append(in.Txs, []sgMsgSpec{M(0, sim[0]), M(0, sim[0]+1)})
+		in.Txs = append(in.Txs, sgTx{Msgs: []sgMsgSpec{M(0, sim[0]), M(0, sim[0]+1)}})
 	}
 	if ntx > 3 && r.Chance(50) {
 		in.Boundary = 1 + r.Intn(ntx-1)
+	}
+}
+
+func sgCoqOpt(x string) string {
+	if x == "None" {
+		return "None"
+	}
+	return "(Some (" + x + "))"
+}
+
+func (wr *sgWrap) isEthRoute() bool {
+	if wr.Route != "eth-ext" || wr.Depth > 0 || wr.Before > 0 || wr.After > 0 || len(wr.Inner) == 0 {
+		return false
+	}
+	for _, im := range wr.Inner {
+		if im.Eth == nil {
+			return false
+		}
+	}
+	return true
+}
+
+// sgGenWrapped writes the script of a "wrapped" case into the input: 2-3 sender accounts; Ethereum-route
+// transactions that execute (and keep the sequences moving), ordinary Cosmos transactions of the same
+// accounts, and -- more than half of the steps -- Cosmos transactions that carry signed Ethereum messages
+// on another route.  A shadow of the sequences keeps the nonces meaningful.
+func sgGenWrapped(in *sgInput) {
+	r := NewRng(in.Seed ^ 0x77726170706564)
+	na := 2 + r.Intn(2)
+	sim := make([]uint64, na)
+	for i := range sim {
+		sim[i] = uint64(r.Intn(4))
+		if r.Chance(5) {
+			sim[i] = 1 << 40
+		}
+	}
+	in.Seq0 = append([]uint64{}, sim...)
+	done := []sgMsgSpec{} // executed on the Ethereum route
+	M := func(from int, nonce uint64) sgMsgSpec { return sgMsgSpec{From: from, Nonce: nonce} }
+	direct := func(i, n int) {
+		tx := []sgMsgSpec{}
+		for q := 0; q < n; q++ {
+			tx = append(tx, M(i, sim[i]))
+			done = append(done, M(i, sim[i]))
+			sim[i]++
+		}
+		in.Txs = append(in.Txs, sgTx{Msgs: tx})
+	}
+	pick := func(weights ...int) int {
+		tot := 0
+		for _, w := range weights {
+			tot += w
+		}
+		x := r.Intn(tot)
+		for i, w := range weights {
+			if x < w {
+				return i
+			}
+			x -= w
+		}
+		return 0
+	}
+	routes := []string{"cosmos-direct", "cosmos-amino", "eip712-ext", "eip712-key", "eth-ext"}
+	direct(r.Intn(na), 1+r.Intn(2)) // something is executed before anything is carried
+	nsteps := 5 + r.Intn(5)
+	for t := 0; t < nsteps; t++ {
+		k := r.Intn(100)
+		switch {
+		case k < 24:
+			direct(r.Intn(na), 1+r.Intn(2))
+		case k < 32: // an ordinary Cosmos transaction: the sequence moves on the Cosmos route
+			i := r.Intn(na)
+			wr := &sgWrap{Route: routes[pick(5, 2, 2, 2)], Signer: i, Before: r.Intn(2), Inner: []sgInner{{}}}
+			if wr.Route == "cosmos-direct" && r.Bool() {
+				wr.Depth = 1
+			}
+			in.Txs = append(in.Txs, sgTx{Wrap: wr})
+			sim[i]++
+		default:
+			i := r.Intn(na)
+			eth := []sgMsgSpec{}
+			fresh := false
+			q := r.Intn(100)
+			switch {
+			case q < 48 && len(done) > 0: // the replay: a message that was executed on the Ethereum route
+				old := done[r.Intn(len(done))]
+				eth, i = []sgMsgSpec{old}, old.From
+			case q < 70: // not yet executed, valid for the current sequence
+				eth, fresh = []sgMsgSpec{M(i, sim[i])}, true
+			case q < 82: // from the future
+				eth = []sgMsgSpec{M(i, sim[i]+1+uint64(r.Intn(3)))}
+			case q < 90 && sim[i] > 0: // another transaction signed over a nonce that is used up
+				eth = []sgMsgSpec{{From: i, Nonce: sim[i] - 1, Alt: 2}}
+			case len(done) > 0: // a replay beside a message that is valid for the current sequence
+				old := done[r.Intn(len(done))]
+				i = old.From
+				eth = []sgMsgSpec{old, M(i, sim[i])}
+				if r.Bool() {
+					eth[0], eth[1] = eth[1], eth[0]
+				}
+			default:
+				eth, fresh = []sgMsgSpec{M(i, sim[i])}, true
+			}
+			// the inner messages: the Ethereum messages among 0-2 plain ones, at any position
+			inner := []sgInner{}
+			for _, e := range eth {
+				e := e
+				inner = append(inner, sgInner{Eth: &e})
+			}
+			for n := pick(55, 30, 15); n > 0; n-- {
+				at := r.Intn(len(inner) + 1)
+				inner = append(inner[:at], append([]sgInner{{}}, inner[at:]...)...)
+			}
+			wr := &sgWrap{Route: routes[pick(60, 12, 10, 10, 8)], Signer: i, Inner: inner}
+			wr.Depth = []int{0, 1, 2, 3}[pick(18, 47, 20, 15)]
+			wr.Before = []int{0, 1, 2, 3}[pick(40, 35, 15, 10)]
+			wr.After = pick(75, 25)
+			if r.Chance(35) { // wrapped by somebody else, with or without a stored grant
+				wr.Signer = (i + 1 + r.Intn(na-1)) % na
+				wr.Grant = r.Bool()
+			}
+			if wr.isEthRoute() {
+				wr.Depth = 1
+			}
+			in.Txs = append(in.Txs, sgTx{Wrap: wr})
+			if fresh && r.Bool() { // the carried message is still executable on its own route
+				direct(i, 1)
+			}
+		}
+	}
+	if n := len(in.Txs); n > 3 && r.Chance(50) {
+		in.Boundary = 1 + r.Intn(n-1)
 	}
 }
 
@@ -1559,14 +1798,21 @@ type sgSigned struct {
 
 func (w *sgWorld) runMulti(c *sgCase, in *sgInput) {
 	if len(in.Txs) == 0 {
-		sgGenMulti(in)
+		if in.Kind == "wrapped" {
+			sgGenWrapped(in)
+		} else {
+			sgGenMulti(in)
+		}
 	}
 	na := len(in.Seq0)
 	for _, tx := range in.Txs {
-		for _, sp := range tx {
+		for _, sp := range tx.carried() {
 			if sp.From+1 > na {
 				na = sp.From + 1
 			}
+		}
+		if tx.Wrap != nil && tx.Wrap.Signer+1 > na {
+			na = tx.Wrap.Signer + 1
 		}
 	}
 	for len(in.Seq0) < na {
@@ -1622,7 +1868,7 @@ func (w *sgWorld) runMulti(c *sgCase, in *sgInput) {
 		return g
 	}
 	for _, tx := range in.Txs {
-		for _, sp := range tx {
+		for _, sp := range tx.carried() {
 			g := get(sp)
 			if sp.Mut && sp.Fund && g.rec >= na && sgSeq(ctx, a, c.accts[g.rec]) == 0 && sgBal(ctx, a, c.accts[g.rec]).Sign() == 0 {
 				sgInstall(ctx, a, c.accts[g.rec], sp.Nonce, true)
@@ -1642,7 +1888,331 @@ func (w *sgWorld) runMulti(c *sgCase, in *sgInput) {
 	}
 	h := sgHist{Init: c.snapshot(ctx, a)}
 	execTotal := map[string]int{}
-	for t, specs := range in.Txs {
+
+	// ---- a Cosmos transaction that carries signed Ethereum messages on a route that is not theirs
+	sink := sdk.AccAddress(NewRng(in.Seed ^ 0x73696e6b).Bytes(20))
+	ethURL := sdk.MsgTypeURL(&evmtypes.MsgEthereumTx{})
+	wrapped := func(t int, wr *sgWrap) {
+		what := fmt.Sprintf("tx%d", t)
+		if wr.Signer < 0 || wr.Signer >= len(accts) {
+			c.tags["wrapped:bad-script"] = true
+			return
+		}
+		signer := accts[wr.Signer]
+		signerIdx := c.intern(signer.Acc)
+		plain := func() sdk.Msg {
+			return banktypes.NewMsgSend(signer.Acc, sink, sdk.NewCoins(sdk.NewCoin(utils.BaseDenom, sdkmath.NewInt(1))))
+		}
+		carried := []*sgSigned{}
+		inner := []sdk.Msg{}
+		labels, descs, shapeInner := []string{}, []string{}, []string{}
+		for _, im := range wr.Inner {
+			if im.Eth == nil {
+				inner = append(inner, plain())
+				shapeInner = append(shapeInner, "send")
+				continue
+			}
+			g := get(*im.Eth)
+			m := &evmtypes.MsgEthereumTx{}
+			if err := m.FromEthereumTx(g.tx); err != nil {
+				panic(err)
+			}
+			m.From = ""
+			carried = append(carried, g)
+			inner = append(inner, m)
+			labels = append(labels, g.label+" "+g.hash)
+			descs = append(descs, g.desc)
+			shapeInner = append(shapeInner, "eth:"+g.label)
+		}
+		depth := wr.Depth
+		if depth < 0 {
+			depth = 0
+		}
+		if depth > 6 {
+			depth = 6
+		}
+		core := inner
+		for d := 0; d < depth; d++ {
+			ex := authz.NewMsgExec(signer.Acc, core)
+			core = []sdk.Msg{&ex}
+		}
+		msgs := []sdk.Msg{}
+		for i := 0; i < wr.Before && i < 8; i++ {
+			msgs = append(msgs, plain())
+		}
+		msgs = append(msgs, core...)
+		for i := 0; i < wr.After && i < 8; i++ {
+			msgs = append(msgs, plain())
+		}
+		if len(msgs) == 0 {
+			c.tags["wrapped:bad-script"] = true
+			return
+		}
+		shape := fmt.Sprintf("%s signed by account%d: %d x MsgSend, %d x MsgExec around [%s], %d x MsgSend; grant stored: %v",
+			wr.Route, wr.Signer, wr.Before, depth, strings.Join(shapeInner, ", "), wr.After, wr.Grant)
+		cosmosSigned := wr.Route != "eth-ext"
+		if len(carried) == 0 && !cosmosSigned {
+			c.tags["wrapped:bad-script"] = true
+			return
+		}
+		if wr.Grant {
+			for _, g := range carried {
+				if g.rec >= 0 && !c.accts[g.rec].Equals(signer.Acc) {
+					if err := a.AuthzKeeper.SaveGrant(ctx, signer.Acc, c.accts[g.rec], authz.NewGenericAuthorization(ethURL), nil); err != nil {
+						c.tags["wrapped:grant-not-stored"] = true
+					} else {
+						c.tags["wrapped:grant-stored"] = true
+					}
+				}
+			}
+		}
+		// ---- the bytes
+		var bz []byte
+		outer := "None"
+		gas := uint64(300000 + 400000*len(carried) + 60000*len(msgs))
+		if cosmosSigned {
+			seq := sgSeq(ctx, a, signer.Acc)
+			accNum := sgAccNum(ctx, a, signer.Acc)
+			b, d, err := w2.sgSignCosmosGas(ctx, wr.Route, signer, chainID, chainID, accNum, seq, msgs, price, gas)
+			signed := "None"
+			if err == nil {
+				signed = fmt.Sprintf("(Some (mk_doc %q %s %s %d%%N))", d.Chain, coqU64(d.AccNum), coqU64(d.Seq), c.body(d.BodyID))
+			} else if wr.Route != "cosmos-direct" {
+				// amino JSON and the EIP-712 typed data cannot render this transaction (MsgEthereumTx refuses to give amino
+				// sign bytes, the legacy typed data has no MsgExec), so no valid signature of the route exists for it:
+				// the envelope of the route is put around a SIGN_MODE_DIRECT signature
+				var b0 []byte
+				if b0, _, err = w2.sgSignCosmosGas(ctx, "cosmos-direct", signer, chainID, chainID, accNum, seq, msgs, price, gas); err == nil {
+					b, err = w2.sgCosmosMutate(b0, func(bd client.TxBuilder, tx sdk.Tx) error {
+						sigs, err := tx.(interface {
+							GetSignaturesV2() ([]signing.SignatureV2, error)
+						}).GetSignaturesV2()
+						if err != nil || len(sigs) != 1 {
+							return fmt.Errorf("sigs")
+						}
+						dd, ok := sigs[0].Data.(*signing.SingleSignatureData)
+						if !ok {
+							return fmt.Errorf("sig data")
+						}
+						if wr.Route == "eip712-ext" {
+							o, err := codectypes.NewAnyWithValue(&haqqtypes.ExtensionOptionsWeb3Tx{TypedDataChainID: sgThisEIP155, FeePayer: signer.Acc.String(), FeePayerSig: dd.Signature})
+							if err != nil {
+								return err
+							}
+							bd.(authtx.ExtensionOptionsTxBuilder).SetExtensionOptions(o)
+						}
+						sigs[0].Data = &signing.SingleSignatureData{SignMode: signing.SignMode_SIGN_MODE_LEGACY_AMINO_JSON, Signature: dd.Signature}
+						return bd.SetSignatures(sigs...)
+					})
+					c.tags[fmt.Sprintf("wrapped:envelope-without-valid-signature:%s:depth%d", wr.Route, depth)] = true
+				}
+			}
+			if err != nil {
+				c.tags[fmt.Sprintf("wrapped:unbuildable:%s:depth%d", wr.Route, depth)] = true
+				return
+			}
+			bz = b
+			bodyID := "undecodable"
+			if dec, derr := w2.TxCfg.TxDecoder()(bz); derr == nil {
+				bodyID = sgBodyID(dec)
+			}
+			if wr.Route == "eip712-ext" {
+				outer = fmt.Sprintf("SEip712 %d%%N %s %s %d%%N %d%%Z true", signerIdx, coqU64(seq), signed, c.body(bodyID), sgThisEIP155)
+			} else {
+				outer = fmt.Sprintf("SCosmos %d%%N %s %s %d%%N", signerIdx, coqU64(seq), signed, c.body(bodyID))
+			}
+		} else {
+			// behind the Ethereum extension option, no Cosmos signature; fee and gas = sum over the carried messages
+			b := w2.TxCfg.NewTxBuilder()
+			eb, ok := b.(authtx.ExtensionOptionsTxBuilder)
+			opt, err := codectypes.NewAnyWithValue(&evmtypes.ExtensionOptionsEthereumTx{})
+			if !ok || err != nil {
+				c.tags["wrapped:unbuildable:eth-ext"] = true
+				return
+			}
+			eb.SetExtensionOptions(opt)
+			fee, gl := new(big.Int), uint64(0)
+			for _, g := range carried {
+				fee.Add(fee, new(big.Int).Mul(price, new(big.Int).SetUint64(g.tx.Gas())))
+				gl += g.tx.Gas()
+			}
+			if err := b.SetMsgs(msgs...); err != nil {
+				c.tags["wrapped:unbuildable:eth-ext"] = true
+				return
+			}
+			b.SetFeeAmount(sdk.NewCoins(sdk.NewCoin(utils.BaseDenom, sdkmath.NewIntFromBigInt(fee))))
+			b.SetGasLimit(gl)
+			if bz, err = w2.TxCfg.TxEncoder()(b.GetTx()); err != nil {
+				c.tags["wrapped:unbuildable:eth-ext"] = true
+				return
+			}
+		}
+		pre, preBal := c.snapshot(ctx, a), bals()
+		preTo := map[string]*big.Int{}
+		for _, g := range carried {
+			preTo[g.hash] = sgBal(ctx, a, sdk.AccAddress(g.to.Bytes()))
+		}
+		// ---- the real ante handler on a discarded branch (error class), then the real DeliverTx
+		bctx, _ := ctx.CacheContext()
+		if in.Seed%3 == 0 {
+			bctx = bctx.WithIsCheckTx(true)
+			c.tags["mode:CheckTx"] = true
+		}
+		aerr := w2.sgRunAnte(bctx, bz)
+		class, modelled := sgErrClass(aerr)
+		res := a.DeliverTx(abci.RequestDeliverTx{Tx: bz})
+		accepted := res.Code == 0
+		post, postBal := c.snapshot(ctx, a), bals()
+		log := res.Log
+		if len(log) > 140 {
+			log = log[:140]
+		}
+		deliver := fmt.Sprintf("code %d %s", res.Code, log)
+		if len(carried) == 0 {
+			// an ordinary Cosmos transaction of the signer (its sequence moves on the Cosmos route)
+			who, sane := sgMoved(pre, post)
+			if !sane {
+				c.fail("%s (%s): more than one sequence moved, or one moved by more than 1 (%v -> %v)", what, shape, pre, post)
+			}
+			if who >= 0 && who != signerIdx {
+				c.fail("%s (%s): executed on behalf of account %d, signed by account %d", what, shape, who, signerIdx)
+			}
+			if (aerr == nil) != (who >= 0) {
+				c.fail("%s (%s): the ante handler says %v, the sequences went %v -> %v", what, shape, aerr, pre, post)
+			}
+			if who >= 0 {
+				c.nAccepted++
+			}
+			h.Steps = append(h.Steps, sgSub{What: what + ":cosmos", Class: class, Who: who, OtherOK: modelled, SeqBefore: pre, SeqAfter: post,
+				Deliver: deliver, Wrapper: shape, coq: outer, seqs: post})
+			c.tags["wrapped:plain-cosmos-tx:"+wr.Route+":"+class] = true
+			return
+		}
+		// ---- how often every carried message executed: its private recipient's balance
+		execs := map[string]int{}
+		anyExec := false
+		for _, g := range carried {
+			if _, ok := execs[g.hash]; ok {
+				continue
+			}
+			d := new(big.Int).Sub(sgBal(ctx, a, sdk.AccAddress(g.to.Bytes())), preTo[g.hash])
+			q, rem := new(big.Int).QuoRem(d, g.value, new(big.Int))
+			if rem.Sign() != 0 || d.Sign() < 0 || !q.IsInt64() {
+				c.fail("%s: the recipient of %s received %s, not a multiple of the signed value %s", what, g.label, d, g.value)
+			}
+			execs[g.hash] = int(q.Int64())
+			anyExec = anyExec || q.Sign() > 0
+		}
+		// ---- the property.  "The account's current sequence number" = its sequence when the carrying
+		// transaction is submitted (plus its earlier messages in it), as for the Ethereum route.
+		cur := append([]uint64{}, pre...)
+		cat := ""
+		var whos []int
+		executed := []int{}
+		execFor := make([]uint64, len(post))
+		allowed := make([]*big.Int, len(post))
+		for i := range allowed {
+			allowed[i] = new(big.Int)
+		}
+		used := map[string]int{}
+		for k, g := range carried {
+			kind := "no-signer"
+			switch {
+			case g.rec < 0:
+			case execTotal[g.hash] > 0:
+				kind = "replay"
+			case g.tx.Nonce() < pre[g.rec]:
+				kind = "used-nonce"
+			case g.tx.Nonce() > pre[g.rec]:
+				kind = "future-nonce"
+			default:
+				kind = "current-nonce"
+			}
+			if k == 0 {
+				cat = kind
+			}
+			c.tags["wrapped:carried:"+kind] = true
+			executed = append(executed, execs[g.hash])
+			if used[g.hash] >= execs[g.hash] {
+				continue
+			}
+			used[g.hash]++
+			if g.rec < 0 {
+				c.fail("%s (%s): %s executed although no account can be recovered from its signature", what, shape, g.label)
+				continue
+			}
+			whos = append(whos, g.rec)
+			execFor[g.rec]++
+			allowed[g.rec].Add(allowed[g.rec], g.cost)
+			// only at the account's then-current sequence ...
+			if g.tx.Nonce() != cur[g.rec] {
+				c.fail("%s (%s): the signed transaction %s (%s) was executed with nonce %d while the account's sequence was %d",
+					what, shape, g.hash, g.label, g.tx.Nonce(), cur[g.rec])
+			}
+			cur[g.rec]++
+		}
+		// ... and at most once
+		for _, g := range carried {
+			if n, ok := execs[g.hash]; ok && n > 0 {
+				before := execTotal[g.hash]
+				execTotal[g.hash] += n
+				delete(execs, g.hash)
+				if execTotal[g.hash] > 1 {
+					c.fail("%s (%s): ONE signature, %d executions: the signed transaction %s (%s, value %s), executed %d time(s) before, was executed %d more time(s) by a Cosmos transaction that merely carries it -- its recipient has been paid %d x %s",
+						what, shape, execTotal[g.hash], g.hash, g.label, g.value, before, n, execTotal[g.hash], g.value)
+				}
+			}
+		}
+		if accepted && whos == nil {
+			whos = []int{}
+		}
+		if !accepted {
+			whos = nil
+		}
+		// nobody but the wrapper's own signer (who signed this Cosmos transaction over his current sequence, if the
+		// ante handler passed) loses a sequence number or pays, unless a message of his executed
+		for i := range post {
+			if i == signerIdx && cosmosSigned && aerr == nil {
+				continue
+			}
+			if post[i] != pre[i] && execFor[i] == 0 {
+				c.fail("%s (%s): account %d's sequence went %d -> %d although it did not sign this Cosmos transaction and none of its messages executed",
+					what, shape, i, pre[i], post[i])
+			}
+			if paid := new(big.Int).Sub(preBal[i], postBal[i]); paid.Cmp(allowed[i]) > 0 {
+				c.fail("%s (%s): account %d paid %s, more than the messages executed on its behalf can cost (%s)", what, shape, i, paid, allowed[i])
+			}
+		}
+		if aerr != nil && (accepted || anyExec) {
+			c.fail("%s (%s): the ante handler refuses the transaction (%v) but DeliverTx says code %d, executions per carried message %v", what, shape, aerr, res.Code, executed)
+		}
+		who := -1
+		if len(whos) > 0 {
+			who = whos[0]
+		}
+		h.Steps = append(h.Steps, sgSub{What: what + ":wrapped:" + cat, Class: class, Who: who, OtherOK: modelled, Msgs: labels, Whos: whos, Executed: executed,
+			SeqBefore: pre, SeqAfter: post, Deliver: deliver, Wrapper: shape, coqs: descs,
+			wrap: fmt.Sprintf("mk_wrap %s %d %d %s", sgCoqOpt(outer), wr.Before, depth, coqBool(wr.Grant)), seqs: post})
+		c.tags["wrapped:"+wr.Route+":"+class] = true
+		c.tags[fmt.Sprintf("wrapped:depth%d", depth)] = true
+		if wr.Before > 0 {
+			c.tags["wrapped:behind-plain-msgs"] = true
+		}
+		if len(wr.Inner) > 1 {
+			c.tags["wrapped:several-inner-msgs"] = true
+		}
+		for _, g := range carried {
+			if g.rec != signerIdx {
+				c.tags["wrapped:by-another-signer"] = true
+			}
+		}
+		if accepted {
+			c.tags["wrapped:ACCEPTED"] = true
+		}
+	}
+
+	for t, txs := range in.Txs {
+		specs := txs.Msgs
 		if in.Boundary > 0 && t == in.Boundary {
 			a.EndBlock(abci.RequestEndBlock{Height: hdr.Height})
 			a.Commit()
@@ -1651,6 +2221,17 @@ func (w *sgWorld) runMulti(c *sgCase, in *sgInput) {
 			a.BeginBlock(abci.RequestBeginBlock{Header: hdr})
 			ctx = a.BaseApp.NewContext(false, hdr)
 			c.tags["block-boundary"] = true
+		}
+		if wr := txs.Wrap; wr != nil {
+			if !wr.isEthRoute() {
+				wrapped(t, wr)
+				continue
+			}
+			specs = txs.carried() // the Ethereum extension option around nothing but MsgEthereumTx IS the Ethereum route
+		}
+		if len(specs) == 0 {
+			c.tags["multi:bad-script"] = true
+			continue
 		}
 		msgs := []*sgSigned{}
 		sdkMsgs := []sdk.Msg{}
@@ -1859,9 +2440,9 @@ func sgRunCase(id string, in sgInput) Case {
 		e := forkEnv() // only to share the tx config / signer
 		c.tags["kind:blocks"] = true
 		sgWorldOf(e).runBlocks(c, r)
-	case "multi":
+	case "multi", "wrapped":
 		e := forkEnv() // only to share the tx config / signer
-		c.tags["kind:multi"] = true
+		c.tags["kind:"+in.Kind] = true
 		sgWorldOf(e).runMulti(c, &in)
 	default:
 		e := forkEnv()
@@ -1926,6 +2507,9 @@ func sigsDriver(cfg Config, out *Out) error {
 		default: // four in six: one signed transaction of one route and all its mutations
 			in.Kind = "mutations"
 			in.Route = sgRoutes[(i-(i+3)/6-(i+0)/6)%len(sgRoutes)]
+			if i%12 == 4 { // ... of which one in eight gives way to a history with wrapped submissions
+				in.Kind, in.Route = "wrapped", ""
+			}
 		}
 		out.Emit(sgRunCase(fmt.Sprintf("s%d-%d", cfg.Seed, i), in))
 	}
